@@ -17,7 +17,7 @@ func schedStr(s [][]uint64) string {
 }
 
 func genC15(cfg runCfg, e *emitter, rng *rand.Rand) {
-	nHist := tierN(cfg, 500, 8000)
+	nHist := tierN(cfg, 1000, 8000)
 	for hI := 0; hI < nHist; hI++ {
 		e.line("CASE sched%d", hI)
 		e.line("RESET")
